@@ -108,10 +108,24 @@ package immutable
 //@     requires [first_shortcut] !pa && !rt && r.first ==> arg2 == 0 && minMaxSeg[0] >= ctx.tr.Min && arg1 == minMaxSeg[0]
 //@     requires [last_shortcut] !pa && !rt && !r.first ==> minMaxSeg[1] <= ctx.tr.Max && arg1 == minMaxSeg[1]
 
+// Statistics served file by file (ordered files). A nil result tells the caller "this series has nothing more":
+// it may only be returned once every file was consulted - a file that yields no record (the queried column is not
+// in it, or has no value in the range) must not end the series, and with first()/last()-only queries the cursor may
+// jump to the end only after a record was produced.
+//@ func (*LocationCursor).ReadMeta
+//@   requires l != nil
+//@   ensures [nil_only_after_the_last_file] result0 == nil && result1 == nil ==> l.pos >= len(l.lcs)
+//@   store LocationCursor.pos
+//@     requires [jump_to_end_only_with_a_record] val == len(l.lcs) && l.pos < len(l.lcs) && val != l.pos + 1 ==> rec != nil
+
+// (The same for the out-of-order files, which are folded in one call: it returns only after the last file, a file
+// without a record does not stop the fold.)
 // Statistics of several out-of-order files are folded into one record: the scratch record handed to each
 // file's reader starts EMPTY (the partial-coverage path adds onto the count/sum it finds there, so leftovers of
 // the previous file would be counted twice).
 //@ func (*LocationCursor).ReadOutOfOrderMeta
+//@   requires l != nil
+//@   ensures [every_file_was_folded] result1 == nil ==> l.pos >= len(l.lcs)
 //@   ghost clean bool = false
 //@   call (*Record).ResetForReuse on dst
 //@     set clean = true
@@ -471,3 +485,52 @@ package immutable
 //@     requires [schema_copied_before_rows] copied
 //@   store Record.Schema
 //@     never [merged_schema_never_aliased]
+
+// ================================================================ C09: folding per-file statistics (AggregateData)
+// sum and count of a column are folded file by file into the accumulator (newRec). A file without a value for the
+// column contributes nothing, and an accumulator that has none yet ADOPTS the other file's value - otherwise the
+// column's sum/count is lost for this and every later file (the oldest file lacks the field, or the time range
+// selects only null rows of it).
+//@ prop C09
+//@ func sumMeta
+//@   ghost k int = 0
+//@   ghost acc Iface = nil
+//@   ghost other Iface = nil
+//@   call (*ColMeta).Sum
+//@     set acc = (k == 0 ? ret0 : acc)
+//@     set other = (k == 1 ? ret0 : other)
+//@     set k = k + 1
+//@   ghost n int = 0
+//@   ghost otherNil bool = false
+//@   ghost accNil bool = false
+//@   call IsInterfaceNil
+//@     set otherNil = (arg0 == other && n == 0 ? ret0 : otherNil)
+//@     set accNil = (arg0 == acc && n > 0 ? ret0 : accNil)
+//@     set n = n + 1
+//@   ghost wrote bool = false
+//@   call (*ColMeta).SetSum
+//@     requires [adopted_value_is_the_other_sum] accNil ==> arg0 == other
+//@     set wrote = true
+//@   ensures [accumulator_without_sum_adopts_the_other] n >= 2 && !otherNil && accNil ==> wrote
+//@   ensures [file_without_sum_changes_nothing] n >= 1 && otherNil ==> !wrote
+//@ func countMeta
+//@   ghost k int = 0
+//@   ghost acc Iface = nil
+//@   ghost other Iface = nil
+//@   call (*ColMeta).Count
+//@     set acc = (k == 0 ? ret0 : acc)
+//@     set other = (k == 1 ? ret0 : other)
+//@     set k = k + 1
+//@   ghost n int = 0
+//@   ghost otherNil bool = false
+//@   ghost accNil bool = false
+//@   call IsInterfaceNil
+//@     set otherNil = (arg0 == other && n == 0 ? ret0 : otherNil)
+//@     set accNil = (arg0 == acc && n > 0 ? ret0 : accNil)
+//@     set n = n + 1
+//@   ghost wrote bool = false
+//@   call (*ColMeta).SetCount
+//@     requires [adopted_value_is_the_other_count] accNil ==> arg0 == other
+//@     set wrote = true
+//@   ensures [accumulator_without_count_adopts_the_other] n >= 2 && !otherNil && accNil ==> wrote
+//@   ensures [file_without_count_changes_nothing] n >= 1 && otherNil ==> !wrote
